@@ -1718,10 +1718,11 @@ class Polygon(Point, projective.Polygon):
     def circle_parameters(self, short_arc=True, degrees=True,
                           model=Model.POINCARE, flatten=False):
         if not flatten:
-            return self.get_edges().circle_parameters(short_arc, degrees, model)
+            return self.get_edges().circle_parameters(degrees=degrees,
+                                                      model=model)
 
         flat_segments = self.get_edges().flatten_to_unit()
-        return flat_segments.circle_parameters(short_arc, degrees, model)
+        return flat_segments.circle_parameters(degrees=degrees, model=model)
 
     @staticmethod
     def regular_polygon(n, radius=None, angle=None, dimension=2, **kwargs):
